@@ -34,10 +34,12 @@ CHECKS = {
     technique="contract-based deductive verification (pyvc: VCs from the AST of the real solver loops, z3/cvc5) + bounded contract checking of run()",
     engine="pyvc", rtc=True),
  "C04": dict(
-    level=("exploration", "Bounded: every family member is compiled and simulated with vectorize on and off in separate fresh processes and the two "
-            "are compared with each other, frontend variable by frontend variable.", "5 C04"),
-    note="Trusted: the harness mapping of frontend variables to positions (get_variable_positions as run() uses it).",
-    technique="bounded differential contract checking (vectorize on vs off) on generated model families", engine="rtc", rtc=True),
+    level=("other", "Deductive (small core): _get_indexed_var_str, which decides whether a vectorised edge variable is indexed, returns the bare variable "
+            "exactly for the identity selection. Bounded: every family member is compiled and simulated with vectorize on and off in separate fresh "
+            "processes and the two are compared with each other, frontend variable by frontend variable.", "5 C04"),
+    note="Trusted: pyvc encoding; the harness mapping of frontend variables to positions (get_variable_positions as run() uses it). _group_edges, "
+         "_add_edge_buffer and the rest of the vectorisation bookkeeping are bounded only.",
+    technique="contract-based deductive verification of the index-selection helper (pyvc) + bounded differential contract checking (vectorize on vs off) on generated model families", engine="pyvc", rtc=True),
  "C09": dict(
     level=("other", "Deductive: the delay discretisation NetworkGraph._preprocess_delay returns round-half-even(delay/step) for fixed steps and the "
             "delay itself otherwise, for all inputs. Bounded: run(solver='euler') against the explicitly delayed recurrence on families with mixed "
